@@ -159,6 +159,8 @@ THEOREMS = [
     "Verif.C18.export_program_selection",
     "Verif.C18.program_establishes_hypotheses",
     "Verif.C18.program_reexport",
+    "Verif.C18.kymo_frame_range",
+    "Verif.C18.kymo_frame_range_ordered",
 ]
 RULE = (
     "corpus + exhaustive small scope + seeded random + malformed stream. stack: real TIFF stacks written with tifffile "
@@ -662,7 +664,7 @@ def reference_confocal(case):
     return np.array(frames), out
 
 
-def impl_confocal(case):
+def _impl_confocal(case):
     from lumicks.pylake import ImageStack
 
     obs = case["_obs"] = {}
@@ -694,10 +696,12 @@ def impl_confocal(case):
                     obs["lines"] = int(img.shape[1]) if img.ndim == 3 else None
                     try:
                         d = obj.line_timestamp_ranges(include_dead_time=True)
+                        obs["dead_lines"] = [(int(a), int(b)) for a, b in d]
                         obs["dead"] = [(min(int(a) for a, _ in d), max(int(b) for _, b in d))]
                     except Exception as e:
                         obs["dead_error"] = repr(e)
                     e_ = obj.line_timestamp_ranges(include_dead_time=False)
+                    obs["exp_lines"] = [(int(a), int(b)) for a, b in e_]
                     obs["exp"] = [(min(int(a) for a, _ in e_), max(int(b) for _, b in e_))]
                 obs["pixelsize_um"] = list(obj.pixelsize_um)
                 obs["fast_pixels"] = int(obj.pixels_per_line)
@@ -755,7 +759,48 @@ def impl_confocal(case):
         rm(p1, p2, p3, p0, p0b)
 
 
+def written_ms(raw):
+    return [json.loads(pg["desc"]).get("Exposure time (ms)") for pg in raw]
+
+
+def impl_confocal(case):
+    """answers 0-1: the cast of all pixels and the DateTime of the last page read back (see _impl_confocal); 2: the DateTime tag
+    of the FIRST page as written; 3: the doubles behind "Exposure time (ms)" of all pages as written (raw re-read)"""
+    r = _impl_confocal(case)
+    obs = case.get("_obs", {})
+    if "raw1" not in obs:
+        return r + ["not-written"] * (4 - len(r))
+    raw = obs["raw1"]
+    dt = raw[0]["dt"]
+    a2 = dt if case["kind"] == "kymo" else enc_list([ord(ch) for ch in dt])
+    ms = written_ms(raw)
+    a3 = enc_ratlist([Fraction(float(x)) for x in ms]) if all(isinstance(x, float) for x in ms) else f"no-exposure-key:{ms!r}"
+    return r + [a2, a3]
+
+
+def enc_ranges2(rr):
+    return f"{enc_list([a for a, _ in rr])} {enc_list([b for _, b in rr])}"
+
+
 def ops_confocal(case):
+    return _ops_confocal(case) + _ops_confocal_tags(case)
+
+
+def _ops_confocal_tags(case):
+    """ops 2-3: what the provider hooks make of the object's own line / frame ranges (Kymo._tiff_timestamp_ranges: min / max over
+    all line starts and stops; Scan: the frame ranges) and the float64 millisecond key of every page"""
+    obs = case.get("_obs", {})
+    if case["kind"] == "kymo":
+        if "dead_lines" in obs and "exp_lines" in obs:
+            return [f"c18.kymorange {enc_ranges2(obs['dead_lines'])}", f"c18.kymoexp {enc_ranges2(obs['exp_lines'])}"]
+        return ["c18.kymorange [] []", "c18.kymoexp [] []"]
+    if obs.get("dead") and obs.get("exp"):
+        a, b = obs["dead"][0]
+        return [f"c18.encode {a} {b}", f"c18.expms {enc_list([y - x for x, y in obs['exp']])}"]
+    return ["c18.encode -1 -1", "c18.expms []"]
+
+
+def _ops_confocal(case):
     obs = case.get("_obs", {})
     if "image" in obs:
         vals = enc_ratlist(arr_rats(obs["image"]))
@@ -1499,10 +1544,10 @@ def agree(case, i, ia, ma):
         return True  # the derivation itself was refused (C06's business): nothing was exported, nothing to compare
     if ia == "not-written" and i > 0:
         return True  # the export was refused (op 0 compares that refusal with the model): there is no tag to read back
-    if case["kind"] == "exposure" and i == 0 and ia.startswith("[") and ma.startswith("["):
+    if (case["kind"] == "exposure" and i == 0 or case["kind"] in ("kymo", "scan") and i == 3) and ia.startswith("[") and ma.startswith("["):
         # the millisecond doubles: number policy (a double of the implementation within rel 1e-12 of the model's; `x / 1e6`
         # instead of `x * 1e-6` is the same exposure) - the integers read back (ops 1, 2) are compared exactly
-        a, b = [Fraction(t) for t in ia[1:-1].split(",")], [Fraction(t) for t in ma[1:-1].split(",")]
+        a, b = [Fraction(t) for t in ia[1:-1].split(",") if t], [Fraction(t) for t in ma[1:-1].split(",") if t]
         return len(a) == len(b) and all(abs(x - y) <= abs(y) * Fraction(1, 10**12) for x, y in zip(a, b))
     return ia == ma
 
@@ -2137,6 +2182,12 @@ def extra_coverage(results):
             for t in c["ms"]:
                 y = 1e6 * f64_of(t)
                 bump(expo, "read:" + ("product is an exact tie k+1/2 (half-even decides)" if y % 1 == 0.5 else "product is integral" if y % 1 == 0 else "product is fractional"))
+        if k == "kymo" and "dead_lines" in c.get("_obs", {}):
+            for key in ("dead_lines", "exp_lines"):
+                ll = c["_obs"].get(key) or []
+                ordered = all(a <= b for a, b in ll) and all(x[0] <= y[0] and x[1] <= y[1] for x, y in zip(ll, ll[1:]))
+                bump(expo, f"kymo_{key}:" + ("in time order, start <= stop (hypothesis of kymo_frame_range_ordered met)" if ordered else "NOT ordered"))
+                bump(expo, f"kymo_{key}:n_lines={len(ll)}")
         if k in ("kymo", "scan"):
             for o in c["derive"]:
                 derived[o[0]] = derived.get(o[0], 0) + 1
